@@ -991,6 +991,12 @@ def run_case(ctx, case):
     # A. export in memory (+ B. import it back)
     if case["export_style"] == "ctor":
         ok, m = ctx.call("RelionMotl(df,version,pixel_size,binning)", cm.RelionMotl, T.copy(), version=v, pixel_size=ps, binning=1.0)
+        if ok and tf and i % 4 == 1:
+            # the list's table carries row labels other than 0..n-1 (as after filtering / sorting without reset_index): same particles,
+            # same order, so the export must be the same row for row
+            r7 = ctx.rng(i, 7)
+            m.df.index = (r7.permutation(len(m.df)) * 2 + 5) if i % 8 == 1 else (np.arange(len(m.df)) * 3 + 7)
+            ctx.extra["export from a table with non 0..n-1 row labels"] = ctx.extra.get("export from a table with non 0..n-1 row labels", 0) + 1
         ok, rdf = ctx.call("create_relion_df", m.create_relion_df, tomo_format=tf, subtomo_format=sf) if ok else (False, None)
     else:
         ok, m = ctx.call("RelionMotl(df)", cm.RelionMotl, T.copy())
